@@ -150,14 +150,25 @@ inline Outcome runTridiagCase(const KV& c)
     if (kappa > 1e6L)
         o.cls("kappa_gt_1e6");
 
-    SymmetricTridiagonalSolver<double> S(n);
-    S.is_cyclic(cyclic);
-    for (int i = 0; i < n; i++)
-        S.main_diagonal(i) = mainD[i];
-    for (int i = 0; i + 1 < n; i++)
-        S.sub_diagonal(i) = sub[i];
-    if (cyclic)
-        S.cyclic_corner_element() = corner;
+    // The solver lives in a std::vector, as the smoothers keep their line solvers; `relocate` = 1 grows that vector after
+    // the first solve (the object is move-constructed to a new address), 2 replaces it by a copy of itself: "every time"
+    // includes the solves after the container holding the solver has reallocated.
+    const int relocate = (int)c.getI("relocate", 0);
+    if (relocate)
+        o.cls(relocate == 1 ? "relocated_by_move" : "relocated_by_copy");
+    std::vector<SymmetricTridiagonalSolver<double>> holder;
+    holder.reserve(1);
+    holder.emplace_back(n);
+    {
+        SymmetricTridiagonalSolver<double>& S = holder[0];
+        S.is_cyclic(cyclic);
+        for (int i = 0; i < n; i++)
+            S.main_diagonal(i) = mainD[i];
+        for (int i = 0; i + 1 < n; i++)
+            S.sub_diagonal(i) = sub[i];
+        if (cyclic)
+            S.cyclic_corner_element() = corner;
+    }
 
     std::vector<double> t1(n), t2(n);
     std::vector<double> firstX;
@@ -168,6 +179,17 @@ inline Outcome runTridiagCase(const KV& c)
         std::vector<double> x  = b;
         std::fill(t1.begin(), t1.end(), 1e300); // temporaries hold garbage
         std::fill(t2.begin(), t2.end(), -1e300);
+        if (k == 1 && relocate == 1) {
+            std::vector<SymmetricTridiagonalSolver<double>> bigger;
+            bigger.reserve(4);
+            bigger.emplace_back(std::move(holder[0]));
+            holder = std::move(bigger);
+        }
+        else if (k == 1 && relocate == 2) {
+            SymmetricTridiagonalSolver<double> copy(holder[0]);
+            holder[0] = copy;
+        }
+        SymmetricTridiagonalSolver<double>& S = holder[0];
         S.solveInPlace(x.data(), t1.data(), cyclic ? t2.data() : nullptr);
         std::vector<LD> bl(b.begin(), b.end());
         std::vector<LD> xr = useDense ? lu->solve(bl) : tri.solve(bl);
@@ -355,6 +377,7 @@ inline KV genTridiagCase()
     c.putD("corner", corner);
     c.putI("nrhs", rint(1, 4));
     c.putI("rhs_kind", rint(0, 5));
+    c.putI("relocate", rweighted({4, 1, 1}));
     c.putU("rhs_seed", rseed());
     return c;
 }
